@@ -1,29 +1,38 @@
 import GoDcp.Driver.All
+import GoDcp.Driver.Session
 
 open GoDcp.Driver
 
-def handle (line : String) : String :=
+structure DState where
+  sess : GoDcp.St := {}
+
+/-- one protocol line: `OP[<TAB>REAL]` ↦ `MODEL<TAB>VERDICT` -/
+def handle (st : DState) (line : String) : DState × String :=
   let (op, real) := match line.splitOn "\t" with
     | [o] => (o, none)
     | o :: r :: _ => (o, some r)
     | [] => ("", none)
   match toks op with
-  | [] => "bad-op\t-"
+  | [] => (st, "bad-op\t-")
   | c :: args =>
-    match allHandlers.lookup c with
-    | none => "bad-op\t-"
-    | some h => match h args real with
-      | none => "bad-op\t-"
-      | some o => s!"{o.model}\t{o.verdict}"
+    match sessionLine st.sess (c :: args) with
+    | some (s', out) => ({ st with sess := s' }, s!"{out}\t-")
+    | none =>
+      match allHandlers.lookup c with
+      | none => (st, "bad-op\t-")
+      | some h => match h args real with
+        | none => (st, "bad-op\t-")
+        | some o => (st, s!"{o.model}\t{o.verdict}")
 
-partial def loop (h : IO.FS.Stream) (out : IO.FS.Stream) : IO Unit := do
+partial def loop (h : IO.FS.Stream) (out : IO.FS.Stream) (st : DState) : IO Unit := do
   let line ← h.getLine
   if line.isEmpty then return ()
   let l := ((line.splitOn "\n").headD "")
-  out.putStrLn (handle l)
-  loop h out
+  let (st', o) := handle st l
+  out.putStrLn o
+  loop h out st'
 
 def main : IO Unit := do
   let out ← IO.getStdout
-  loop (← IO.getStdin) out
+  loop (← IO.getStdin) out {}
   out.flush
